@@ -144,6 +144,7 @@ func TestC05(t *testing.T) {
 			return c05Case{Doc: doc, A: genStyle(t, nl), B: genStyle(t, nl)}
 		}
 	}
+	runPairRegression(h, c05Pairs)
 	vlib.Rapid(h, "style-pairs-valid-docs", h.N(8000, 500000), gen(false), c05Check)
 	vlib.Rapid(h, "style-pairs-faulty-docs", h.N(3000, 150000), gen(true), c05Check)
 
